@@ -937,7 +937,8 @@ pub struct Scenario {
     pub incs: Vec<(usize, Option<u32>)>,
     pub chunks: usize,
     /// 0: every word of publication k carries k; 1: consecutive publications differ in the status word only;
-    /// 2: real records alternate with the all-zero placeholder; 3: the same record is published repeatedly
+    /// 2: real records alternate with the all-zero placeholder; 3: the same record is published repeatedly;
+    /// 4: like 0, with a drift word of 2e9 and more (records a client's now() rejects)
     pub family: u8,
     /// what the segment file's time stamps say when a daemon (re)starts on it and when a client attaches:
     /// 0 whatever the file system put there (just now); 1 last touched 2400 s ago (a daemon that had been up
@@ -1028,6 +1029,9 @@ pub fn record_for(family: u8, k: i64) -> Rec {
                 Rec { as_of_s: 0, as_of_ns: 0, va_s: 1000, va_ns: 0, bound: 0, drift: 1000, reserved: 0, status: 0 }
             }
         }
+        // 4: records a client refuses to evaluate (drift of 2e9 ppb and more - what a daemon started with
+        // --max-drift-rate 2000000 publishes): for the segment protocol they are records like any other
+        4 => Rec { drift: 2_000_000_000 + k as u32, ..tagged(if k == 0 { 1000 } else { k }) },
         // 3: the same record published again and again (what the daemon does while nothing changes)
         _ => {
             if k == 0 {
